@@ -383,11 +383,17 @@ func checkFormatMeaning(res *Result, before string, after string, gen0 CLIResult
 		shape := "format_changes_generate"
 		if !same {
 			shape = "format_changes_generate_with_text_change"
+		} else if kBlockStartGlued.MatchString(before) {
+			// the recorded deviation C10-blockstart-word-split: `##!>assembleX` is re-printed
+			// `##!> assemble X` - white space only, but inside a word
+			shape = "format_splits_block_start_word"
 		}
 		res.addFailure(Failure{Kind: "C10", Shape: shape, Input: input,
 			Detail: fmt.Sprintf("generate before: %s %q, after: %s %q", g0, clip(gen0.Stdout, 200), g1, clip(gen1.Stdout, 200))})
 	}
 }
+
+var kBlockStartGlued = regexp.MustCompile(`(?m)^[ \t]*##!>\s*(?:assemble|cmdline)[^\s]`)
 
 var (
 	kBlockStart = regexp.MustCompile(`^##!>\s*(assemble|cmdline)\s*(\S+)?`)
